@@ -1139,7 +1139,15 @@ def comp_constbranch(prop, tier, comp, work):
     out = dict(broken=[], units=n, functions=len(rows), cmd=cmd)
     if err:
         out["broken"].append(err); return out
+    if comp.get("anchors"):
+        # restricted to the specialisations that live in this property's anchor files (the compile-time branch of THESE index
+        # functions is the run-time function applied to the type's value, arguments in order)
+        anchors = anchor_files(prop)
+        keep = lambda fl: any(relfile(fl) == a or (a.endswith("/") and relfile(fl).startswith(a)) for a in anchors)
+        rows = [r for r in rows if keep(r.get("file", ""))]
     f, inst, samples = rule_constbranch(rows, prop)
+    if comp.get("anchors") and inst == 0:
+        out["broken"].append("R-CONSTBRANCH: no resolve_optype specialisation with a compile-time branch in the anchor files of %s" % prop)
     out.update(findings=f, instances={"R-CONSTBRANCH": inst}, evaluations=inst, distinct_nontrivial=inst - len(set(x["function"] + x["file"] + str(x["line"]) for x in f)), samples=samples, wall_s=round(time.time() - t0, 2))
     return out
 
@@ -1286,7 +1294,7 @@ def truth_subject(c, locs):
         break
     return c
 
-def rule_maybe(rows, prop):
+def rule_maybe(rows, prop, only=None):
     tbl = load_table("roles.json")
     findings, samples, n = [], [], 0
     seen = set()
@@ -1301,6 +1309,8 @@ def rule_maybe(rows, prop):
                 continue
             key = (r["file"], f.get("line"), f.get("col"), f["a"], r.get("sig", "")[:400])
             if key in seen:
+                continue
+            if only and not re.search(only, f["a"] + " " + truth_subject(f["a"].replace(" ", ""), locs)):
                 continue
             seen.add(key); n += 1
             x = f["a"].replace(" ", "")
@@ -1404,6 +1414,23 @@ def comp_maybe_div(prop, tier, comp, work):
     f1, n1, s1 = rule_maybe(rows, prop)
     f2, n2, s2 = rule_div(rows, prop)
     out.update(findings=f1 + f2, instances={"R-MAYBE": n1, "R-DIV": n2}, evaluations=n1 + n2, distinct_nontrivial=n1 + n2 - len(f1 + f2), samples=s1 + s2, wall_s=round(time.time() - t0, 2))
+    return out
+
+
+def comp_maybe_bcast(prop, tier, comp, work):
+    """R-MAYBE restricted to broadcast results (C06): every dereference of the result of broadcast_shape / broadcast_to /
+    broadcast_arrays / broadcast_size is dominated by the true edge of its own truth test - an operand combination that does not
+    broadcast is reported as Nothing by every consumer instead of being read"""
+    t0 = time.time()
+    tu = os.path.join(VERIF, "drivers", "maybe_inst.cpp")
+    rows, err, cmd = run_nmlint(tu, filters=["/include/nmtools/"], inst=True, cfg=True)
+    out = dict(broken=[], units=1, functions=len(rows), cmd=cmd)
+    if err:
+        out["broken"].append(err); return out
+    f, k, samples = rule_maybe(rows, prop, only=r"broadcast|bcast")
+    for x in f:
+        x["rule"] = "R-MAYBE.broadcast"
+    out.update(findings=f, instances={"R-MAYBE.broadcast": k}, evaluations=k, distinct_nontrivial=k - len(f), samples=samples, wall_s=round(time.time() - t0, 2))
     return out
 
 
@@ -2240,4 +2267,4 @@ def comp_fwd_array(prop, tier, comp, work):
     return out
 
 
-RULES = {"R-FWD.array": comp_fwd_array, "R-FWD.functional": comp_fwd_functional, "R-UFUNC": comp_ufunc, "R-KSIB": comp_ksib, "R-SIMD": comp_simd, "R-CONSTBRANCH": comp_constbranch, "R-TRAITPROV": comp_traitprov, "R-MAYBE-DIV": comp_maybe_div, "R-OWN": comp_own, "R-EVAL": comp_eval, "R-EQSHAPE": comp_eqshape, "R-PAIR": comp_pair, "R-FOLD": comp_fold, "R-MEMCOPY": comp_memcopy, "R-AXISNORM": comp_axisnorm, "R-AXISNORM.simd": comp_axisnorm_simd, "R-UFWD.reduce": comp_ufwd_reduce, "R-PARAMUSE": comp_paramuse, "R-GETFN": comp_getfn}
+RULES = {"R-FWD.array": comp_fwd_array, "R-FWD.functional": comp_fwd_functional, "R-UFUNC": comp_ufunc, "R-KSIB": comp_ksib, "R-SIMD": comp_simd, "R-CONSTBRANCH": comp_constbranch, "R-TRAITPROV": comp_traitprov, "R-MAYBE-DIV": comp_maybe_div, "R-OWN": comp_own, "R-EVAL": comp_eval, "R-EQSHAPE": comp_eqshape, "R-PAIR": comp_pair, "R-FOLD": comp_fold, "R-MEMCOPY": comp_memcopy, "R-AXISNORM": comp_axisnorm, "R-AXISNORM.simd": comp_axisnorm_simd, "R-UFWD.reduce": comp_ufwd_reduce, "R-PARAMUSE": comp_paramuse, "R-GETFN": comp_getfn, "R-MAYBE.broadcast": comp_maybe_bcast}
